@@ -2,6 +2,7 @@
 import json, os, random, shutil, subprocess, hashlib
 from common import *
 import build_repo
+import twins
 
 LEVEL = "proof"
 RULE = ("correspondence: gwb-grid's own ThreadPool::parallel_for (source/gwb-grid/main.cc compiled into the harness) run on (start, end, threads) triples — all of start 0..2, "
@@ -65,6 +66,23 @@ def oracle(seed, tier):
     # ---- (a) concurrent queries
     variants = ["plain"] + (["tsan"] if tier == "thorough" else [])
     worlds = gen_worlds(rng, wdir, "t", budget(tier, 6, 30), {"with_random": False, "with_lines": True, "max_features": 5})
+    # structured worlds so that every model type is evaluated by several threads at once: the twin catalogue (one world per feature kind x model type, incl. the slab-only
+    # temperatures with the spline) with query streams inside the features
+    class _TwinGen:
+        def __init__(self, kind):
+            self.kind = kind
+        def queries(self, w, n):
+            qs = [(p, d) for (_, p, d) in twins.twin_queries(rng, self.kind, max(3, n // 6))]
+            return [qs[i % len(qs)] for i in range(n)]          # few locations, revisited by many threads
+        def props(self, n):
+            return rng.choice([[(1, 0, 0)], [(1, 0, 0), (2, 0, 0), (4, 0, 0)], [(2, 1, 0), (1, 0, 0)]])
+    cat = twins.catalogue()
+    rng.shuffle(cat)
+    for ci, (kind, key, name, pa, pb) in enumerate(cat):
+        tw = twins.twin_world(kind, key, name, pa, pb)
+        tp = os.path.join(wdir, "twin_%d.wb" % ci)
+        json.dump(tw, open(tp, "w"))
+        worlds.append((tp, tw, _TwinGen(kind)))
     for variant in variants:
         h = build_repo.compile_harness(os.path.join(proto.VERIF, "harness", "threads.cc"), variant)
         for wi, (path, w, g) in enumerate(worlds):
